@@ -105,6 +105,8 @@ def check(run):
             declared = {d.attr_name for d in getattr(cls, "avp_def", ())}
             if with_sid and "session_id" in declared:
                 req.session_id = "sess;1;2"
+            if "destination_realm" in declared:
+                req.destination_realm = b"elsewhere.example.org"       # the answer's Origin-Realm is the LOCAL realm all the same
             if with_proxy and "proxy_info" in declared:
                 req.proxy_info = [ProxyInfo(proxy_host=b"p.example.net", proxy_state=b"\x01\x02")]
             req.header.hop_by_hop_identifier = 77
